@@ -23,12 +23,14 @@ Definition uuid4_char (i : nat) (c : N) : bool :=
   else hex_lower c.
 Definition uuid4_format (s : list N) : bool :=
   Nat.eqb (length s) 36 && forallb (fun ic => uuid4_char (fst ic) (snd ic)) (combine (seq 0 36) s).
-(** shortuuid: 22 characters of its base-57 alphabet (no 0 1 I O l) *)
+(** shortuuid: characters of its base-57 alphabet (no 0 1 I O l); 22 of them for most values, fewer
+    when the leading digits are zero — v3.0.7 pads to 13 only (its length formula uses log 25) *)
 Definition base57_char (c : N) : bool :=
   in_range 50 57 c
   || (in_range 65 90 c && negb (N.eqb c 73) && negb (N.eqb c 79))
   || (in_range 97 122 c && negb (N.eqb c 108)).
-Definition shortuuid_format (s : list N) : bool := Nat.eqb (length s) 22 && forallb base57_char s.
+Definition shortuuid_format (s : list N) : bool :=
+  Nat.leb 13 (length s) && Nat.leb (length s) 22 && forallb base57_char s.
 (** ULID: 26 characters of Crockford's base 32 (no I L O U), the first at most '7' *)
 Definition crockford_char (c : N) : bool :=
   in_range 48 57 c
